@@ -792,6 +792,8 @@ class ArrayOf(DataType):
     def checkProperties(self):
         self.default = [self.members.default] * self.minlen
         super().checkProperties()
+        # properties of the members may be set through the array (see setProperty)
+        self.members.checkProperties()
 
     def getProperties(self):
         """get also properties of members"""
